@@ -2,10 +2,15 @@
   QKV.Model.FixedQ — fixed-point quantizers of qkeras/quantizers.py at value level
   (qnoise_factor = 1, deterministic rounding, constant or no scale):
     quantized_bits.__call__   (alpha None / constant; incl. the 1-bit sign branch)
-    quantized_relu.__call__   (plain and leaky; is_quantized_clip default)
+    quantized_relu.__call__   (plain and leaky; `qrelu` = the value before the trailing
+                               relu_upper_bound pass, `qreluU` = the full call with
+                               relu_upper_bound / is_quantized_clip; `qreluSigU` = use_sigmoid=1)
     quantized_linear.__call__ (constant scale; incl. the 1-bit sign-function shift)
     quantized_tanh.__call__ / quantized_sigmoid.__call__ on a given surrogate value p
-    and the reporters min() / max() / range().
+    and the reporters min() / max() / range();
+    per-channel constant scales (`alpha` a tensor): `qlinearPC`, `qbitsPC` and their reporters;
+    the module-level surrogate switch `set_internal_sigmoid` (`SigMode`, `internalSigmoid`,
+    `runSession`: the surrogate is looked up when the quantizer is CALLED).
   Exact rationals; the float32 code computes the same values on the envelope stated in
   DESIGN.md §3.2 (|x| < 2^24 steps, power-of-two scales) — validated bit-for-bit on every run.
 -/
@@ -91,6 +96,8 @@ structure ReluCfg where
   bits : Int
   integer : Int
   slopeLog : Option Nat     -- negative_slope = 2^-k; none = 0
+  upper : Option Rat := none  -- relu_upper_bound (None by default)
+  qclip : Bool := true        -- is_quantized_clip (True by default)
   deriving Repr, DecidableEq
 
 def ReluCfg.nsb (c : ReluCfg) : Int := c.bits - (if c.slopeLog.isSome then 1 else 0)
@@ -98,7 +105,9 @@ def ReluCfg.step (c : ReluCfg) : Rat := pow2 (c.integer - c.nsb)
 def ReluCfg.hi (c : ReluCfg) : Int := twoPow c.nsb - 1
 def ReluCfg.slope (c : ReluCfg) : Rat := match c.slopeLog with | none => 0 | some k => pow2 (-(k : Int))
 
-/-- value of `quantized_relu(bits, integer, negative_slope=2^-k)(x)`.
+/-- `xq` of `quantized_relu(bits, integer, negative_slope=2^-k)(x)` BEFORE the trailing
+    `relu_upper_bound` pass: the value of the call when `is_quantized_clip` is set or no (truthy)
+    upper bound is given; `qreluU` below is the full call.
     positive part: `m_i * clip(round(p)/m, 0, 1 - 1/m)`;
     leaky part:    `m_i * slope * clip(round(p*slope) / (slope*m), -1, 0)`. -/
 def qrelu (t : Tie) (c : ReluCfg) (x : Rat) : Rat :=
@@ -177,5 +186,150 @@ def qsigmoidP (t : Tie) (bits : Int) (symmetric : Bool) (p : Rat) : Rat :=
 /-- hard sigmoid `clip(x/2 + 1/2, 0, 1)` and smooth sigmoid `clip(3x/16 + 1/2, 0, 1)`, exact -/
 def hardSigmoid (x : Rat) : Rat := let y := x / 2 + 1/2; if y < 0 then 0 else if 1 < y then 1 else y
 def smoothSigmoid (x : Rat) : Rat := let y := 3 * x / 16 + 1/2; if y < 0 then 0 else if 1 < y then 1 else y
+
+/-! ### quantized_relu: `relu_upper_bound` / `is_quantized_clip` -/
+
+/-- the bound used by the trailing pass
+    `if self.relu_upper_bound and not self.is_quantized_clip: xq = where(xq <= ub, xq, ub)`.
+    The test is Python truthiness: `relu_upper_bound = 0.0` does NOT clamp. -/
+def ReluCfg.clamp (c : ReluCfg) : Option Rat :=
+  if c.qclip then none
+  else match c.upper with
+    | none => none
+    | some u => if u = 0 then none else some u
+
+/-- `tf.where(y <= u, y, u)` (no bound: identity) -/
+def clampTo (b : Option Rat) (y : Rat) : Rat :=
+  match b with
+  | none => y
+  | some u => if y ≤ u then y else u
+
+/-- value of `quantized_relu(bits, integer, negative_slope, relu_upper_bound, is_quantized_clip)(x)`
+    (use_sigmoid = 0, qnoise_factor = 1) -/
+def qreluU (t : Tie) (c : ReluCfg) (x : Rat) : Rat := clampTo c.clamp (qrelu t c x)
+
+/-- `K.relu(x, alpha=negative_slope)` -/
+def ReluCfg.lrelu (c : ReluCfg) (x : Rat) : Rat := if x < 0 then c.slope * x else x
+
+/-- the float activation `x_u` the quantizer is applied to ("underlying activation"):
+    `is_quantized_clip` has precedence; here the upper bound is tested with `is not None` -/
+def ReluCfg.act (c : ReluCfg) (x : Rat) : Rat :=
+  if c.qclip then (if x ≤ (c.hi : Rat) * c.step then c.lrelu x else (c.hi : Rat) * c.step)
+  else match c.upper with
+    | some u => if x ≤ u then c.lrelu x else u
+    | none => c.lrelu x
+
+/-- `K.clip(v, lo, hi)` on rationals -/
+def rclip (v lo hi : Rat) : Rat := if v < lo then lo else if hi < v then hi else v
+
+/-- `quantized_relu(..., use_sigmoid=1)` on the surrogate value `s = _sigmoid(x / m_i)`:
+    `p = s*m; xq = m_i * clip(2*(round(p)/m) - 1, 0, 1 - 1/m)` and, for a leaky slope,
+    `+ m_i * slope * clip(2*(round(p*slope) / (slope*m)) - 1, -1, 0)` -/
+def qreluSigP (t : Tie) (c : ReluCfg) (s : Rat) : Rat :=
+  let m : Rat := (twoPow c.nsb : Rat)
+  let p := s * m
+  let pos := pow2 c.integer * rclip (2 * ((roundTie t p : Rat) / m) - 1) 0 (1 - 1 / m)
+  match c.slopeLog with
+  | none => pos
+  | some _ =>
+    pos + pow2 c.integer * c.slope *
+      rclip (2 * ((roundTie t (p * c.slope) : Rat) / (c.slope * m)) - 1) (-1) 0
+
+/-- full call with `use_sigmoid=1` (the `relu_upper_bound` pass applies to this branch too) -/
+def qreluSigU (t : Tie) (c : ReluCfg) (s : Rat) : Rat := clampTo c.clamp (qreluSigP t c s)
+
+/-! ### per-channel constant scales (`alpha` = a tensor with one entry per channel) -/
+
+/-- channel with scale entry `a` -/
+def LinCfg.chan (c : LinCfg) (a : Rat) : LinCfg := { c with alpha := some a }
+def BitsCfg.chan (c : BitsCfg) (a : Rat) : BitsCfg := { c with alpha := some a }
+
+/-- `quantized_linear(alpha=tensor)(row)`: element `j` is quantized with scale entry `j` -/
+def qlinearPC (t : Tie) (c : LinCfg) (as row : List Rat) : List Rat :=
+  List.zipWith (fun a x => qlinear t (c.chan a) x) as row
+/-- `min()` / `max()` = `clip_min * quantization_scale`, a tensor with one entry per channel -/
+def qlinearMinPC (c : LinCfg) (as : List Rat) : List Rat := as.map fun a => qlinearMin (c.chan a)
+def qlinearMaxPC (c : LinCfg) (as : List Rat) : List Rat := as.map fun a => qlinearMax (c.chan a)
+
+/-- the integer codes in the order `range()` lists them: `0 … hi, lo … -1` -/
+def LinCfg.codes (c : LinCfg) : List Int :=
+  ((List.range (c.hi + 1).toNat).map fun (i : Nat) => (i : Int)) ++
+  ((List.range (- c.lo).toNat).map fun (i : Nat) => c.lo + (i : Int))
+
+/-- `range()` when the channels lie along the LAST axis of the scale (`alpha` of shape `[C]`,
+    `[1, C]`): `quantization_scale * concat(pos, neg)` broadcasts `[.., C]` against the `[n]` code
+    vector — defined only for `C = 1` or `C = n`, and for `C = n > 1` it is the ELEMENT-WISE
+    product `qs_j * code_j` (not an enumeration).  `none` = InvalidArgumentError. -/
+def qlinearRangeLast (c : LinCfg) (as : List Rat) : Option (List Rat) :=
+  match as with
+  | [a] => some (c.codes.map fun (k : Int) => (k : Rat) * (c.chan a).qs)
+  | _ => if as.length = c.codes.length
+         then some (List.zipWith (fun a (k : Int) => (k : Rat) * (c.chan a).qs) as c.codes) else none
+/-- `range()` when the channels lie along the FIRST axis (`alpha` of shape `[C, 1]`): row `j`
+    enumerates channel `j` -/
+def qlinearRangeFirst (c : LinCfg) (as : List Rat) : List (List Rat) :=
+  as.map fun a => c.codes.map fun (k : Int) => (k : Rat) * (c.chan a).qs
+
+/-- `quantized_bits(alpha=[...])(row)` (legacy: the scale multiplies the output only) -/
+def qbitsPC (t : Tie) (c : BitsCfg) (as row : List Rat) : List Rat :=
+  List.zipWith (fun a x => qbits t (c.chan a) x) as row
+
+/-- largest / smallest entry of a non-empty list (head as default) -/
+def lmax (l : List Rat) : Rat := l.foldl (fun m a => if m < a then a else m) (l.headD 0)
+def lmin (l : List Rat) : Rat := l.foldl (fun m a => if a < m then a else m) (l.headD 0)
+
+/-! ### state kept by a `quantized_linear` OBJECT -/
+
+/-- `__init__` stores `quantization_scale = default_quantization_scale`, computed from the `alpha`
+    it was given; `__call__` with a constant alpha uses the STORED scale, `min()/max()/range()` too.
+    `alpha` and `symmetric` are plain ("modifyable") attributes: `symmetric` is read by
+    `get_clip_bounds` at call time, but assigning `alpha` later does not refresh the stored scale. -/
+structure LinObj where
+  cfg : LinCfg                -- what the attributes say (the declared format)
+  scaleAlpha : Option Rat     -- the alpha the stored quantization_scale was computed from
+  deriving Repr
+
+def LinObj.construct (c : LinCfg) : LinObj := { cfg := c, scaleAlpha := c.alpha }
+def LinObj.setAlpha (o : LinObj) (a : Option Rat) : LinObj := { o with cfg := { o.cfg with alpha := a } }
+def LinObj.setSymmetric (o : LinObj) (s : Bool) : LinObj := { o with cfg := { o.cfg with symmetric := s } }
+/-- the configuration the object BEHAVES as -/
+def LinObj.effective (o : LinObj) : LinCfg := { o.cfg with alpha := o.scaleAlpha }
+def LinObj.call (t : Tie) (o : LinObj) (x : Rat) : Rat := qlinear t o.effective x
+
+/-! ### the module-level surrogate switch `set_internal_sigmoid` -/
+
+inductive SigMode | hard | smooth | real
+  deriving DecidableEq, Repr, Inhabited
+
+/-- the function the module-level name `_sigmoid` is bound to; `σ` stands for `K.sigmoid` -/
+def internalSigmoid (σ : Rat → Rat) : SigMode → Rat → Rat
+  | .hard => hardSigmoid
+  | .smooth => smoothSigmoid
+  | .real => σ
+
+/-- what happens in a session with one quantizer `q` (a map surrogate value ↦ output):
+    the mode is switched, quantizer objects are constructed, the quantizer is called -/
+inductive SigEv
+  | setMode (m : SigMode)
+  | construct
+  | call (x : Rat)
+  deriving Repr
+
+/-- outputs of the calls of a session: `_sigmoid` is looked up when the quantizer is CALLED, so a
+    call sees the mode that was set last; constructing a quantizer captures nothing -/
+def runSession (σ : Rat → Rat) (q : Rat → Rat) : SigMode → List SigEv → List Rat
+  | _, [] => []
+  | _, .setMode m' :: es => runSession σ q m' es
+  | m, .construct :: es => runSession σ q m es
+  | m, .call x :: es => q (internalSigmoid σ m x) :: runSession σ q m es
+
+/-- `quantized_sigmoid` / `quantized_tanh` (use_real_* = False) / `quantized_relu(use_sigmoid=1)` as
+    functions of the INPUT under a given mode -/
+def qsigmoidX (t : Tie) (bits : Int) (sym : Bool) (σ : Rat → Rat) (m : SigMode) (x : Rat) : Rat :=
+  qsigmoidP t bits sym (internalSigmoid σ m x)
+def qtanhX (t : Tie) (bits : Int) (sym : Bool) (σ : Rat → Rat) (m : SigMode) (x : Rat) : Rat :=
+  qtanhP t bits sym (2 * internalSigmoid σ m x - 1)
+def qreluSigX (t : Tie) (c : ReluCfg) (σ : Rat → Rat) (m : SigMode) (x : Rat) : Rat :=
+  qreluSigU t c (internalSigmoid σ m (x / pow2 c.integer))
 
 end QKV
